@@ -94,8 +94,10 @@ def run_check(cid, tier, seed):
     budget = P.get('native_budget', {}).get(tier, 1000 if tier == 'quick' else 30000)
     nat_proc = None
     if P.get('native', True):
+        kn = [toks for f in known if f.get('status') == 'open' and f['property'] == cid
+              for toks in (f.get('native_match') or [])]
         nat_proc = native_start(['search', '--prop', cid, '--seed', str(seed), '--budget', str(budget),
-                                 '--time-limit', '40' if tier == 'quick' else '900'])
+                                 '--time-limit', '40' if tier == 'quick' else '900', '--known', json.dumps(kn)])
     # ---------------------------------------------------------------- generate obligations from the real source
     for key in P['functions']:
         c = reg.contracts.get(key)
@@ -357,6 +359,7 @@ def run_check(cid, tier, seed):
 
 
 def _is_known_native(found, known, cid):
+    return False
     for f in known:
         if f.get('status') == 'open' and f['property'] == cid and f.get('native_match'):
             txt = json.dumps(found, default=str)
